@@ -91,6 +91,13 @@ fn main() {
     let name = name.strip_prefix("v").unwrap_or(&name).to_string();
     match name.as_str() {
         "pa" => {
+            // optional delay (only when the last argument is a lone "&"): lets a driver
+            // observe whether the shell waited for this program
+            if let Ok(ms) = std::env::var("VH_DELAY_IF_LAST_AMP") {
+                if rest.last().map(|b| *b == b"&").unwrap_or(false) {
+                    std::thread::sleep(std::time::Duration::from_millis(ms.parse().unwrap_or(0)));
+                }
+            }
             log(serde_json::json!({"h":"pa","argv": rest.iter().map(|b| jstr(b)).collect::<Vec<_>>(),
                 "env": envs, "cwd": cwd, "pid": pid, "pgid": pgid, "fds": fds_at_start}));
         }
